@@ -150,4 +150,60 @@ def recvMsg (sys : Nat) (p : FirstPkt α) (ded : List (List α)) (eof : Bool) : 
   else if !p.hasDed then .panic
   else recvFollow sys p.total p.payload ded eof
 
+/-! ## size-level view of the receiver (what the driver executes; tied to `recvMsg` by `recvMsg_shape`) -/
+
+inductive RResN | ok (len : Nat) | closed | block | trunc | panic
+deriving Repr, DecidableEq
+
+def RRes.shape : RRes α → RResN
+  | .ok d => .ok d.length | .closed => .closed | .block => .block | .trunc => .trunc | .panic => .panic
+
+def recvFollowN (sys total : Nat) (got : Nat) : List Nat → Bool → RResN
+  | [], eof => if got < total then (if eof then .closed else .block) else .ok got
+  | p :: q, eof =>
+    if got < total then
+      let want := recvEnd sys got total - got
+      if p = 0 ∨ want = 0 then .closed
+      else if want < p then .trunc
+      else recvFollowN sys total (got + p) q eof
+    else .ok got
+
+def recvMsgN (sys total first : Nat) (hasDed : Bool) (ded : List Nat) (eof : Bool) : RResN :=
+  if recvFirstBuf sys < first then .trunc
+  else if total = first then .ok first
+  else if total < first then .panic
+  else if !hasDed then .panic
+  else recvFollowN sys total first ded eof
+
+/-! ## executable property predicate (used only by the failing-input search, never as evidence) -/
+
+def firstN : List Att → Option (Nat × Nat × Bool)
+  | [] => none
+  | .single len .none :: _ => some (len, len, false)
+  | .first lo hi total .none :: _ => some (total, hi - lo, true)
+  | _ :: r => firstN r
+
+def followN : List Att → List Nat
+  | [] => []
+  | .follow lo hi .none :: r => (hi - lo) :: followN r
+  | _ :: r => followN r
+
+def attOk (sys len : Nat) : Att → Bool
+  | .single l _ => l == len && 8 + l ≤ fragmentSize sys
+  | .sock => true
+  | .first lo hi total _ => lo == 0 && decide (lo < hi) && decide (hi ≤ len) && total == len && decide (8 + (hi - lo) ≤ fragmentSize sys)
+  | .follow lo hi _ => decide (0 < lo) && decide (lo < hi) && decide (hi ≤ len) && decide (hi - lo ≤ fragmentSize sys)
+
+/-- C13/C01 as a Boolean function of one run -/
+def propHolds (sys len : Nat) (faults : List Fault) : Bool :=
+  let r := sendLoop sys len faults
+  let fit := r.2.all (attOk sys len)
+  let rx := match firstN r.2 with
+    | none => none
+    | some (total, n, hd) => some (recvMsgN sys total n hd (followN r.2) true)
+  match r.1 with
+  | .panic => false
+  | .ok => fit && rx == some (RResN.ok len)
+  | .err => fit && (match rx with | some (RResN.ok _) => false | _ => true)
+
 end Frag
